@@ -437,7 +437,24 @@ class Interp:
             return env.cls
         sc = self._scope_for(name, env, False)
         v = sc.vars.get(name, MISSING)
+        if v is MISSING and self.lang in ("c", "go"):
+            v = self._declared_storage(name)
+            if v is not MISSING:
+                sc.vars[name] = v
+                return v
         if v is MISSING:
+            # members of the enclosing class are visible by their simple name (Java-like languages)
+            e = env
+            while e is not None:
+                if e.cls is not None:
+                    m = self._find_method(e.cls, name)
+                    if m is not None:
+                        return m.bind(e.this) if e.this is not None else m
+                    f = self._find_class_field(e.cls, name) if self.lang != "python" else MISSING
+                    if f is not MISSING:
+                        return f
+                    break
+                e = e.parent
             if sc is self.unit_env and name not in self.unit_env.declared:
                 return External(name)
             raise GirRuntimeError("UnboundLocalError" if sc is not self.unit_env else "NameError", name)
@@ -476,14 +493,32 @@ class Interp:
         if entry_main:
             m = self.unit_env.vars.get("main")
             if isinstance(m, GFunc):
-                self._call_func(m, [], {})
+                self._call_func(m, self._unknown_args(m), {})
             else:
                 for v in list(self.unit_env.vars.values()):
                     if isinstance(v, GClass) and "main" in v.methods:
                         self._class_init(v)
-                        self._call_func(v.methods["main"], [], {}, cls_obj=v)
+                        self._call_func(v.methods["main"], self._unknown_args(v.methods["main"]), {}, cls_obj=v)
                         break
         return self.out
+
+    def _unknown_args(self, f):
+        return [None for p in self.prog.block(f.row.get("parameters")) if p["operation"] == "parameter_decl"]
+
+    def _struct_names(self):
+        if not hasattr(self, "_structs"):
+            self._structs = {r.get("name") for r in self.prog.rows
+                             if r["operation"] in ("struct_decl", "class_decl", "type_decl", "record_decl")}
+        return self._structs
+
+    def _declared_storage(self, name):
+        """C-like languages: a declared variable of struct type is storage; allocate it on first access."""
+        for r in self.prog.rows:
+            if r["operation"] == "variable_decl" and r.get("name") == name and isinstance(r.get("data_type"), str):
+                dt = r["data_type"].replace("struct ", "").strip()
+                if dt in self._struct_names():
+                    return GRecord(site=r.get("stmt_id"))
+        return MISSING
 
     def _parse_args(self, row, env):
         pos, named = [], {}
@@ -577,6 +612,7 @@ class Interp:
     def _instantiate(self, cls, pos, named, row):
         self._class_init(cls)
         obj = GObject(cls, site=row.get("stmt_id"))
+        self._run_init_blocks(cls, obj, 0)
         for nm in ("%class_init", "%init"):
             f = self._find_method(cls, nm)
             if f is not None:
@@ -591,6 +627,24 @@ class Interp:
         elif pos or named:
             raise GirRuntimeError("TypeError", "constructor takes no arguments")
         return obj
+
+    def _run_init_blocks(self, cls, obj, depth):
+        """class_decl.init holding plain statements (documented form; used by the TypeScript frontend)."""
+        if depth > 20:
+            return
+        for sname in cls.supers:
+            sc = self._lookup_class(sname, cls.env)
+            if sc is not None:
+                self._run_init_blocks(sc, obj, depth + 1)
+        blk = cls.row.get("init")
+        if isnull(blk):
+            return
+        stmts = [r for r in self.prog.block(blk) if r["operation"] != "method_decl"]
+        if not stmts:
+            return
+        env = Env(self.prog, cls.env, set(), unit=self.unit_env, this=obj, cls=cls)
+        for r in stmts:
+            self._exec(r, env)
 
     def _call_func(self, f, pos, named, this=None, cls_obj=None):
         self.depth += 1
@@ -674,6 +728,10 @@ class Interp:
                   "interface_decl", "enum_decl"):
             if op in ("pass_stmt",):
                 self._step(r, env)
+            return
+        if op == "expression_stmt":
+            # TypeScript frontend: a marker after every expression statement; nothing is lost by it
+            self.events.append("tolerated:expression_stmt")
             return
         self._step(r, env)
         h = getattr(self, "op_" + op, None)
@@ -1021,6 +1079,11 @@ class Interp:
     def op_new_record(self, r, env):
         self.write(r.get("target"), GRecord(site=r.get("stmt_id")), env)
 
+    def op_new_struct(self, r, env):
+        if isnull(r.get("target")):
+            raise OutOfVocabulary("new_struct", "target")
+        self.write(r.get("target"), GRecord(site=r.get("stmt_id")), env)
+
     def op_new_object(self, r, env):
         dt = r.get("data_type")
         cls = self.operand(dt, env) if isinstance(dt, str) else None
@@ -1117,6 +1180,14 @@ class Interp:
         if isinstance(recv, GRecord):
             recv.d[field] = src
             return
+        if isinstance(recv, GArray) and isinstance(field, str) and field.lstrip("-").isdigit():
+            # integer-like field names on arrays denote elements (that is how the analyses treat them)
+            idx = int(field)
+            if idx == len(recv.items):
+                recv.items.append(src)
+            else:
+                recv.items[self._index(recv, idx)] = src
+            return
         raise GirRuntimeError("AttributeError", "field_write %s" % field)
 
     def op_field_read(self, r, env):
@@ -1151,6 +1222,9 @@ class Interp:
             self.write(r.get("target"), recv.d[field], env)
             return
         if isinstance(recv, GArray):
+            if isinstance(field, str) and field.lstrip("-").isdigit():
+                self.write(r.get("target"), recv.items[self._index(recv, int(field))], env)
+                return
             if field == "length":
                 self.write(r.get("target"), len(recv.items), env)
                 return
